@@ -59,7 +59,8 @@ pub fn check(rec: &RunRecord, reg: &Reg, which: &Which, cells: &mut Cells) -> Ve
                     "executor" if which.c10 || which.c20 => {
                         let peer = input["peer"].as_str().unwrap_or("");
                         let method = input["method"].as_str().unwrap_or("");
-                        let form = input["form"].as_u64().unwrap_or(0);
+                        let twice = input["form"].as_u64().unwrap_or(0) & 0x10 != 0;
+                        let form = input["form"].as_u64().unwrap_or(0) & 0x0f;
                         let body = &output["execute"];
                         // address: the handle's address (for a stored handle: what the slot holds)
                         let expect_addr = if form >= 3 {
@@ -77,7 +78,7 @@ pub fn check(rec: &RunRecord, reg: &Reg, which: &Which, cells: &mut Cells) -> Ve
                             continue;
                         }
                         let ty = input["ty"].as_str().unwrap_or("");
-                        cells.hit(format!("c10.exec|{}|form{}|{}", if ty.starts_with("dyn:") { "dyn" } else { "contract" }, form, if input["funds"].is_null() { "nofunds" } else { "funds" }));
+                        cells.hit(format!("c10.exec|{}|form{}|{}", if ty.starts_with("dyn:") { "dyn" } else { "contract" }, form, if input["funds"].is_null() { "nofunds" } else if twice { "funds_set_twice" } else { "funds" }));
                         if body.is_null() || body["contract_addr"].as_str() != Some(&expect_addr) {
                             out.push(Finding::new("C10", "c10.exec_addr", op.idx, format!("{caller_cid}: executor helper for handle {} built {}", expect_addr, output)));
                             continue;
